@@ -65,6 +65,24 @@ partial def parseExpr : Sexp → Option Expr
       let es ← args.mapM parseExpr; pure (.tuple (Args.ofList es))
   | _ => none
 
+def srcArgsOfList : List Src → SrcArgs
+  | [] => .nil
+  | a :: r => .cons a (srcArgsOfList r)
+
+/-- source terms: expr syntax plus `(k op E…)` for a Contraction without reduced variables -/
+partial def parseSrc : Sexp → Option Src
+  | .list [.atom "c", k] => k.asNat?.map .const
+  | .list [.atom "v", n] => n.asStr?.map .var
+  | .list [.atom "u", op, a] => do
+      let o ← op.asStr?; let a ← parseSrc a; pure (.unary o a)
+  | .list [.atom "b", op, a, b] => do
+      let o ← op.asStr?; let a ← parseSrc a; let b ← parseSrc b; pure (.binary o a b)
+  | .list (.atom "t" :: args) => do
+      let es ← args.mapM parseSrc; pure (.tuple (srcArgsOfList es))
+  | .list (.atom "k" :: op :: args) => do
+      let o ← op.asStr?; let es ← args.mapM parseSrc; pure (.contraction o (srcArgsOfList es))
+  | _ => none
+
 def parseNode : Sexp → Option Node
   | .list [.atom "fn", e] => (parseExpr e).map .fn
   | .list (.atom "raw" :: es) => (es.mapM parseExpr).map (fun l => .raw (Args.ofList l))
@@ -223,6 +241,20 @@ def handle (args : List Sexp) : String :=
       | .ok c => "ok " ++ toString (codeToSexp c)
       | .error e => "ok " ++ errToString e
     | none => "err bad-prog"
+  | [.atom "lower", e] =>
+    -- C18 lower SRC : compiler.lower
+    match parseSrc e with
+    | some s => match lower s with
+      | some e => "ok " ++ toString (exprToSexp e)
+      | none => "ok (error empty-reduce)"
+    | none => "err bad-src"
+  | [.atom "evalsrc", e, cs, kw] =>
+    match parseSrc e, parseVals cs, parseKw kw with
+    | some e, some cs, some kw =>
+      match evalSrc (interp cs) kw e with
+      | some v => "ok " ++ toString v.toSexp
+      | none => "ok (error unbound)"
+    | _, _, _ => "err bad-args"
   | [.atom "printop", cls, names, defaults, vals] =>
     -- C18 printop "Class" ("p1"…) ("d1"…) ("v1"…): printed form, and what python reads back from it
     match cls.asStr?, names.asStrs?, defaults.asStrs?, vals.asStrs? with
